@@ -739,6 +739,38 @@ fn c06_prog_family(g: &Arc<Grammar>, d: usize, cfgs: &[Cfg], opts: fn() -> Relay
         }),
     )
 }
+
+/// C06 with comments present: the gaps that do not touch the comment are re-laid-out
+fn c06_comment_family(g: &Arc<Grammar>, d: usize, cfgs: &[Cfg], kinds: &'static [usize], placements: &'static [usize]) -> Box<dyn Family> {
+    pf(
+        "c06comments",
+        g,
+        d,
+        cfgs,
+        Box::new(move |_g, toks, c, ctx| {
+            use crate::layout::{self, Base};
+            let l0 = layout::base_gaps(toks, Base::L0);
+            let frozen = layout::frozen_gaps(toks);
+            let mut first = true;
+            for i in 1..toks.len() {
+                if frozen[i] {
+                    continue;
+                }
+                for &k in kinds {
+                    for &p in placements {
+                        if !first {
+                            ctx.sub_eval();
+                        }
+                        first = false;
+                        let x = layout::with_comment(toks, &l0, i, k, p);
+                        progs::c06_relayouts(&x, c, &ro_singles(), ctx);
+                    }
+                }
+            }
+        }),
+    )
+}
+
 fn ro_singles() -> RelayoutOpts {
     RelayoutOpts { singles: true, pairs: false, all_assignments_upto: 0 }
 }
@@ -901,14 +933,16 @@ pub fn families(check: &str, tier: &str) -> Vec<Box<dyn Family>> {
         "C06" => {
             if quick {
                 vec![
-                    c06_prog_family(&g(2), 2, &C_QUICK[..3], ro_singles),
+                    c06_prog_family(&g(2), 2, &C_QUICK[..2], ro_singles),
                     sf("c06", &wf_seeds(), &C_QUICK[..2], Box::new(|s, c, ctx| progs::c06_relayouts(&s.text, c, &ro_singles(), ctx))),
+                    c06_comment_family(&g(1), 1, &C_QUICK[1..2], &[0, 2], &[0, 1]),
                 ]
             } else {
                 vec![
                     c06_prog_family(&g(2), 2, &C_QUICK, ro_deep),
                     c06_prog_family(&g(3), 3, &C_QUICK[..2], ro_singles),
                     sf("c06", &wf_seeds(), &C_QUICK, Box::new(|s, c, ctx| progs::c06_relayouts(&s.text, c, &ro_mid(), ctx))),
+                    c06_comment_family(&g(1), 1, &C_QUICK[..3], &[0, 1, 2, 3, 4, 5, 6], &[0, 1, 2]),
                 ]
             }
         }
